@@ -185,6 +185,21 @@ impl<Receiver: StartReceiver + Send> Start<Receiver> {
     }
 }
 
+#[cfg(feature = "verif")]
+impl<Receiver> Start<Receiver>
+where
+    Receiver: StartReceiver + Send,
+    Receiver::Out: ExchangeData,
+{
+    /// Verification hook: what this `Start` hands to the operators of its block.
+    fn verif_out(&self, el: &StreamElement<Receiver::Out>) {
+        crate::verif::emit(|| {
+            serde_json::json!({"ev": "start_out", "at": crate::verif::coord_str(self.coord.unwrap()),
+                "el": crate::verif::element(el)})
+        });
+    }
+}
+
 impl<Receiver> Operator for Start<Receiver>
 where
     Receiver: StartReceiver + Send,
@@ -217,6 +232,8 @@ where
             // all the previous blocks sent an end: we're done
             if self.missing_terminate == 0 {
                 log::trace!("{} ended", coord);
+                #[cfg(feature = "verif")]
+                self.verif_out(&StreamElement::Terminate);
                 return StreamElement::Terminate;
             }
             if self.missing_flush_and_restart == 0 {
@@ -227,6 +244,8 @@ where
                 // this iteration has ended, before starting the next one wait for the state update
                 self.wait_for_state = true;
                 self.state_generation += 2;
+                #[cfg(feature = "verif")]
+                self.verif_out(&StreamElement::FlushAndRestart);
                 return StreamElement::FlushAndRestart;
             }
 
@@ -277,6 +296,8 @@ where
                     }
                     self.wait_for_state = false;
                 }
+                #[cfg(feature = "verif")]
+                self.verif_out(&msg);
                 return msg;
             }
 
